@@ -452,15 +452,15 @@ func runC02(t *testing.T, d *sim.D) {
 
 // ---- C07: adversarial prefix, then faults stop and a synchronous continuation must decide.
 
-const nOrderings = 18
+const nOrderings = 22
 
 // continuation: deliver everything pending among correct operators (ordering k), and when nothing
 // is pending and someone is undecided, fire the timeouts of all undecided correct operators.
 // Returns (all decided, timeout rounds used).
 func (w *world) continuation(k int, shuffle *sim.Rand) (bool, int) {
 	// timeout policy: real round deadlines are absolute (measured from the duty's slot start), so an
-	// operator in a lower round reaches its deadline first: orderings 0..8 fire only the operators in
-	// the lowest round (they catch up), orderings 9..17 fire all undecided operators at once.
+	// operator in a lower round reaches its deadline first: the first half of the orderings fire only the operators in
+	// the lowest round (they catch up), the second half fire all undecided operators at once.
 	minRoundOnly := k < nOrderings/2
 	k = k % (nOrderings / 2)
 	rounds := 0
@@ -562,11 +562,23 @@ func (w *world) order(c []pend, k int, shuffle *sim.Rand) {
 			return -prepared, p.msg, p.to
 		case 5:
 			return own, p.msg, p.to
+		case 6, 7:
+			// round-changes in ascending order of their prepared round: the one that completes a leader's
+			// quorum then carries the highest prepared value (the leader takes the value to propose from
+			// the completing message); 7 = the recipient's own messages first
+			dr := 0
+			if m.sm != nil && m.sm.Message.MsgType == specqbft.RoundChangeMsgType {
+				dr = int(m.sm.Message.DataRound) + 1
+			}
+			if k == 7 {
+				return 1 - own, dr, p.msg
+			}
+			return dr, p.msg, p.to
 		default:
 			return 0, 0, 0
 		}
 	}
-	if k >= 6 {
+	if k >= 8 {
 		for i := len(c) - 1; i > 0; i-- {
 			j := shuffle.Intn(i + 1)
 			c[i], c[j] = c[j], c[i]
@@ -652,6 +664,33 @@ func runC07(t *testing.T, d *sim.D) {
 	// decided message themselves), decided instances take no part in later rounds, and the remaining
 	// correct operators are fewer than a quorum
 	if last != nil {
+		// cause 1: two correct operators hold prepared values with different roots. With the faulty members
+		// silent every quorum consists of all correct operators, so every round-change quorum contains both,
+		// and isProposalJustification checks EVERY prepared round-change against the hash of the proposed
+		// value ("H(data) != root"): no proposal can ever be justified again.
+		roots := map[string]spectypes.OperatorID{}
+		allUndecided := true
+		for _, i := range last.honestIdx {
+			nd := last.nodes[i]
+			inst := last.instOf(nd)
+			if inst == nil {
+				continue
+			}
+			if inst.State.Decided {
+				allUndecided = false
+			} else if inst.State.LastPreparedRound != 0 && len(inst.State.LastPreparedValue) > 0 {
+				roots[string(inst.State.LastPreparedValue)] = nd.id
+			}
+		}
+		if allUndecided && len(roots) >= 2 {
+			var who []string
+			for v, id := range roots {
+				who = append(who, fmt.Sprintf("op%d:%s", id, valueName(last, []byte(v))))
+			}
+			sort.Strings(who)
+			d.Finding("no-terminating-continuation", "stuck/correct-operators-prepared-on-different-values", "correct operators hold prepared values with different roots (%v): every round-change quorum of the correct operators contains both, and a proposal is only accepted if every prepared round-change in its justification hashes to the proposed value, so no leader can propose any more (tried %v)", who, tried)
+			return
+		}
 		var undecided, byCert []spectypes.OperatorID
 		own := 0
 		for _, i := range last.honestIdx {
@@ -692,6 +731,6 @@ var Specs = map[string]*sim.Spec{
 		Rule:        "as C01, with 45% of Byzantine sends forged (bad signature, foreign/zero/duplicate signer, root mismatch, wrong height/identifier, sub-quorum padded signer list, garbage type) and 40% aggregated-commit (decided) templates; every decision reported by Controller.ProcessMsg and every instance handed to the store is judged by an independent certificate verifier. Non-trivial/distinct as C01.",
 		Assumptions: []string{"independent verifier trusts herumi FastAggregateVerify and ssv-spec ComputeSigningRoot", "locally reached decisions are observed at controller level (runner-level saves are exercised by runnersim)"}},
 	"C07": {Sim: "qbftsim", GenConfig: genConfig("C07"), Run: runC07, Real: commonReal, Stub: commonStub,
-		Rule:        "adversarial prefix of random length as C01 (b<=f silent or equivocating), then faults stop: Byzantine operators silent, in-flight messages among correct operators flushed, synchronous rounds with simultaneous timeouts; all correct operators must decide within f+3 timeout rounds beyond the highest round a correct operator had reached (laggards catching up to it are not charged); up to 18 continuations (9 delivery orderings x 2 timeout policies) are tried before a violation is reported. Side conditions: fault-free in-order run decides in round 1 on the leader's value; every timeout before the cut-off bumps the round, clears the proposal, re-arms the timer and broadcasts a round-change.",
+		Rule:        "adversarial prefix of random length as C01 (b<=f silent or equivocating), then faults stop: Byzantine operators silent, in-flight messages among correct operators flushed, synchronous rounds with simultaneous timeouts; all correct operators must decide within f+3 timeout rounds beyond the highest round a correct operator had reached (laggards catching up to it are not charged); up to 22 continuations (11 delivery orderings x 2 timeout policies) are tried before a violation is reported. Side conditions: fault-free in-order run decides in round 1 on the leader's value; every timeout before the cut-off bumps the round, clears the proposal, re-arms the timer and broadcasts a round-change.",
 		Assumptions: []string{"partial synchrony: loss between correct operators in the prefix is unbounded delay", "existential continuation is searched over 18 continuations only (another might succeed): calibrated on the unchanged tree"}},
 }
